@@ -1,8 +1,6 @@
 (* compiled by lib/modeb.py in the build directory: writes c16_model.ml there *)
 From Coq Require Import Extraction List String.
-From Sky Require Import Model.Secp Model.Bip Gen.Bip39Words Extract.SecpExtract.
-(* the regenerated English word list as byte strings *)
-Definition english_words : list (list BinNums.Z) := List.map bytes_of_string go_english.
+From Sky Require Import Model.Secp Model.Bip Model.BipWords Extract.SecpExtract.
 Extraction "c16_model.ml"
   arith_selftest_expected arith_selftest_actual
   english_words new_mnemonic entropy_from_mnemonic validate_mnemonic new_seed
